@@ -11,10 +11,10 @@ PROP = {
                'Exhaustive every run: all field axioms of Shamir.cpp gf_add/gf_mul/gf_div (256^3 triples); coefficients -> t-1 share values is a bijection for t=2 '
                '(all 256 secret bytes, n=16; 32 secret bytes, n=254/255) and t=3 (65536 coefficient pairs, 4 secret bytes, all index pairs of n=6).',
  'level_note': 'Weaker readings (DESIGN 7): repeat beyond the first t, or surplus distinct shares -> invalid_argument or the true secret; index 0 and t=0/n=0/t>n only must not crash. '
-               'The t=3 enumeration covers 4 secret byte values, not 256. Liveness bound 2 s (>= 100x the slowest legitimate split); other hangs fall to the runner watchdog.',
+               'The t=3 enumeration covers 4 secret byte values, not 256. Liveness bound 2 s (>= 100x the slowest legitimate split); other hangs fall to the runner watchdog. Second compiler: the same tapes also run against a g++ -O2 ASan/UBSan build of the code under test (engine \'tape-rc (second compiler…)\'), because the two compilers instrument and optimise undefined behaviour differently (e.g. abs(INT64_MIN) is only reported by g++\'s UBSan, and clang can fold such UB into a correct-looking result); failing tapes of that engine are kept as *.gcc.tape and replayed with that build.',
  'assumptions': ['refs GF(2^8)/0x11D carry-less multiply is a correct field (self-checked; the implementation is additionally checked against all field axioms exhaustively)',
                  'the coefficient enumeration applies only while split consumes one random_device draw per coefficient (checked; otherwise reported not applicable)',
                  'a split that has not returned after 2 s in a forked child is non-terminating'],
  'exhaustive_part': 'GF(256) field axioms over all 256^3 triples; coefficient->share bijection for t=2 (all secrets bytes) and t=3 (4 secret bytes), every run',
- 'tiers': {'quick': [rc(2000)],
-           'thorough': [rc(12000, W), fuzz(120, 4, max_len=14 + 6 * 6)]}}
+ 'tiers': {'quick': [rc(2000), rc(1000, suffix='_gcc')],
+           'thorough': [rc(12000, W), fuzz(120, 4, max_len=14 + 6 * 6), rc(6000, 4, suffix='_gcc')]}}
